@@ -13,7 +13,7 @@ from .contracts import REGISTRY, LEMMAS
 from .engine import Exec, Unsupported, SpecDrift, solve, Obligation, State
 from .source import Repo, normalized_hash
 
-SPEC_MODULES = ["specs.heap", "specs.graph", "specs.supervised", "specs.semi"]
+SPEC_MODULES = ["specs.heap", "specs.graph", "specs.supervised", "specs.semi", "specs.knn"]
 
 
 def load_specs():
@@ -43,6 +43,10 @@ def _verify_one(args):
         _eng._ids = itertools.count()
         L._fresh = itertools.count()
         repo = Repo()
+        import specs.heap as _hp
+        _hp.REVEAL[0] = (".core.heap." in qualname) or (qualname.startswith("lemma:") and
+                                                         "C05" in LEMMAS[qualname[6:]].props and
+                                                         qualname[6:] not in ("inj_card",))
         if qualname.startswith("lemma:"):
             lem = LEMMAS[qualname[6:]]
             obs = verify_lemma(repo, lem)
